@@ -10,7 +10,7 @@ The code deviates in five classes, each with a kernel-checked witness below:
     NilAtCycle (DESIGN §7 #19), HasQuoted (#32), DupNames, Dangling, WrongComponent (round 3).
 Repaired (regression theorem below): RecContainer (F-C18-6, 0916db1).
 -/
-import KinModel.Lemmas.C18Dang
+import KinModel.Lemmas.C18Seq
 import KinModel.Gen.GenKinds
 import KinModel.Gen.GenFlow
 import KinModel.Gen3Flow
@@ -117,6 +117,82 @@ theorem gen_sound_partial (Δ : Decls) (o : Opts) (fuel : Nat) (t : GoType) (s :
   rw [← he] at hn ⊢
   exact encode_sound_partial Δ (typeName o) Γ (stripPtr t) s v' hΓ hinj (relS_mono hmono s _ hr) hv'
     (by unfold HasQuoted at hq ⊢; rwa [heredAll_strip]) (by unfold DupNames at hd ⊢; rwa [heredAll_strip]) hn
+
+/-! ### reuse: a sequence of `GenerateSchemaRef` calls on one `Generator` (state kept between the calls) -/
+
+/-- **The generator establishes the relation after any history of calls on the same generator** (all types, option
+sets, histories of any length): what `g.GenerateSchemaRef(t)` returns after `g.GenerateSchemaRef(p)` for every `p` of
+`pre` describes `t`, and every entry recorded for the export loop — by this call or an earlier one — describes the
+declared struct it is named after. Full statement: for every `pre`. The code deviates when an earlier ROOT call was for
+a pointer type (`RootPtrBefore`, finding F-C18-7, `witness_root_ptr_before`). -/
+theorem gen_rel_reuse_partial (Δ : Decls) (o : Opts) (fuel : Nat) (pre : List GoType) (t : GoType) (s : Sch) (σ : St)
+    (hg : genAfter Δ o fuel pre t = (.ok s, σ)) (ha : σ.anon = false) (hp : ¬ RootPtrBefore pre) :
+    RelS Δ (typeName o) (okσ σ) (stripPtr t) s ∧ ∀ e, e ∈ σ.refs → RefGood Δ o σ e := by
+  have hp' : rootPtrBeforeB pre = false := by
+    cases h : rootPtrBeforeB pre with | false => rfl | true => exact absurd h hp
+  have hi0 : Inv Δ o {} := ⟨fun _ _ h => (by cases h), fun _ h => (by cases h)⟩
+  unfold genAfter at hg
+  have ha1 : (genSeq Δ o fuel pre {}).anon = false := by
+    have hm := (gen_mono Δ o fuel).1 [] "_root" t (genSeq Δ o fuel pre {})
+    rw [hg] at hm
+    exact hm.2 ha
+  have hi := genSeq_inv Δ o fuel pre {} hp' hi0 ha1
+  have h := (gen_good Δ o fuel).1 [] "_root" t _ hi
+  rw [hg] at h
+  obtain ⟨h1, _, h3⟩ := h ha
+  exact ⟨h3 s rfl, h1⟩
+
+/-- **Soundness after any history of calls on the same generator (partial).** The statement of `gen_sound_partial`
+for the schema returned by the LAST of a sequence of `GenerateSchemaRef` calls on one generator and any component map
+the export loop can produce from the accumulated state — outside the five classes of `gen_sound_partial` and
+`RootPtrBefore`. -/
+theorem gen_sound_reuse_partial (Δ : Decls) (o : Opts) (fuel : Nat) (pre : List GoType) (t : GoType) (s : Sch) (σ : St)
+    (Γ : Comps) (v : GoVal)
+    (hg : genAfter Δ o fuel pre t = (.ok s, σ)) (hp : ¬ RootPtrBefore pre) (hinj : TnInj Δ (typeName o))
+    (hl : LoopResult σ Γ) (hdg : ¬ Dangling σ) (hw : ¬ WrongComponent o σ)
+    (hv : HasType Δ v t) (hnn : encode Δ t v ≠ .null)
+    (hq : ¬ HasQuoted Δ t) (hd : ¬ DupNames Δ t) (hn : ¬ NilAtCycle Γ s (encode Δ t v)) :
+    Sat Γ s (encode Δ t v) := by
+  have hw' : wrongCandB o σ = false := by
+    cases h : wrongCandB o σ with | false => rfl | true => exact absurd h hw
+  have ha : σ.anon = false := by
+    simp only [wrongCandB, Bool.or_eq_false_iff] at hw'; exact hw'.1
+  have hd' : danglingB σ = false := by
+    cases h : danglingB σ with | false => rfl | true => exact absurd h hdg
+  obtain ⟨hr, hc⟩ := gen_rel_reuse_partial Δ o fuel pre t s σ hg ha hp
+  have hco := complete_of_loop hl hd'
+  have hmono := okΓ_of_complete hco
+  obtain ⟨v', hv', he⟩ := strip_value Δ v t hv hnn
+  have hΓ : CompsOK Δ (typeName o) Γ := by
+    intro m s' hlk
+    obtain ⟨hcm, hcand⟩ := hl.1 m s' hlk
+    obtain ⟨hp, n, hmem⟩ := mem_candidatesFor hcand
+    obtain ⟨hne, htn⟩ := wrong_false hw' hmem hcm hp
+    have hrel := (hc _ hmem).1 hne
+    exact ⟨n, htn, declared_of_props hrel hp, relS_mono hmono s' _ hrel⟩
+  rw [← he] at hn ⊢
+  exact encode_sound_partial Δ (typeName o) Γ (stripPtr t) s v' hΓ hinj (relS_mono hmono s _ hr) hv'
+    (by unfold HasQuoted at hq ⊢; rwa [heredAll_strip]) (by unfold DupNames at hd ⊢; rwa [heredAll_strip]) hn
+
+/-- … and the references of the last schema and of every stored component resolve in that map. -/
+theorem gen_refs_resolve_reuse_partial (Δ : Decls) (o : Opts) (fuel : Nat) (pre : List GoType) (t : GoType) (s : Sch)
+    (σ : St) (Γ : Comps) (hg : genAfter Δ o fuel pre t = (.ok s, σ)) (hp : ¬ RootPtrBefore pre) (ha : σ.anon = false)
+    (hl : LoopResult σ Γ) (hd : ¬ Dangling σ) : Resolves Γ s := by
+  obtain ⟨hr, hc⟩ := gen_rel_reuse_partial Δ o fuel pre t s σ hg ha hp
+  have hd' : danglingB σ = false := by
+    cases h : danglingB σ with | false => rfl | true => exact absurd h hd
+  have hco := complete_of_loop hl hd'
+  have hres : ∀ n, okσ σ n → (resolve Γ (.ref n)).isSome = true := by
+    intro n hn
+    obtain ⟨nd, hnd⟩ := okΓ_of_complete hco n hn
+    simp [hnd]
+  refine ⟨fun n hn => hres n (relS_refNames _ _ hr n hn), ?_⟩
+  intro k c hk n hn
+  obtain ⟨_, g, hmem⟩ := mem_candidatesFor (hl.1 k c hk).2
+  exact hres n ((hc _ hmem).2 n hn)
+
+/-- a history of no calls is the single call of `gen_sound_partial` -/
+theorem genAfter_nil (Δ : Decls) (o : Opts) (fuel : Nat) (t : GoType) : genAfter Δ o fuel [] t = genRoot Δ o fuel t := rfl
 
 /-- **No dangling component under the default option set** (no type-name generator, no component export, no
 customizer; UseAllExportedFields and ThrowErrorOnCycle arbitrary): every name registered by cycle cutting is the name
@@ -419,6 +495,24 @@ theorem regression_rec_container :
   obtain ⟨k, rfl⟩ : ∃ k, fuel = k + 3 := ⟨fuel - 3, by omega⟩
   rfl
 
+/-- Finding F-C18-7 (reuse of a generator): `type T struct { N int `json:"n"` }`, `type H struct { F *T `json:"f"` }`.
+`g.GenerateSchemaRef(*T)` stores the ROOT schema — not nullable — in the type table under `*T`; a later
+`g.GenerateSchemaRef(H)` on the same generator finds it for field `F`: `H{}` encodes `{"f":null}`, which is rejected.
+On a fresh generator the same type gets a nullable property and the value is accepted. -/
+def ΔTH : Decls := [("T", [(tagF "N" "n", .int .int)]), ("H", [(tagF "F" "f", .ptr (.named "T"))])]
+def sT (nl : Bool) : Sch := .node "object" nl "" none none none [("n", leaf "integer" false "" none none)] none false
+def sH (nl : Bool) : Sch := .node "object" false "" none none none [("f", sT nl)] none false
+theorem witness_root_ptr_before :
+    (genAfter ΔTH o0 10 [.ptr (.named "T")] (.named "H")).1 = .ok (sH false) ∧
+    (genAfter ΔTH o0 10 [] (.named "H")).1 = .ok (sH true) ∧
+    RootPtrBefore [.ptr (.named "T")] ∧
+    HasType ΔTH (.struct [.nil]) (.named "H") ∧
+    encode ΔTH (.named "H") (.struct [.nil]) = .obj [("f", .null)] ∧
+    ¬ NilAtCycle [] (sH false) (.obj [("f", .null)]) ∧
+    acceptB [] (sH false) (.obj [("f", .null)]) = false ∧
+    acceptB [] (sH true) (.obj [("f", .null)]) = true := by
+  refine ⟨by rfl, by rfl, by decide, by decide, by rfl, by decide, by decide, by decide⟩
+
 /-! ### non-vacuity -/
 
 /-- `type T struct { Kids []*T `json:"kids"`; N int8 `json:"n"` }` with `T{Kids: {&T{Kids: {}, N: -128}}, N: 127}`:
@@ -458,5 +552,16 @@ example : (genRoot [] o0 10 tOctets).1 = .ok (leaf "string" false "byte" none no
     HasType [] (.bytes "AQID") tOctets ∧ ¬ HasType [] (.slice [.i 1]) tOctets ∧
     acceptB [] (leaf "string" false "byte" none none) (encode [] tOctets (.bytes "AQID")) = true := by
   refine ⟨by rfl, by rfl, by decide, by decide, by decide⟩
+
+/-- reuse, outside `RootPtrBefore`: after `g.GenerateSchemaRef(T)` (by value) and `g.GenerateSchemaRef(Kids-T)` the
+schema for `H` on the same generator has a nullable `f` and accepts `{"f":null}`; the type table answers the second
+request for `T` -/
+example : ¬ RootPtrBefore [.named "T", .named "T"] ∧
+    (genAfter ΔTH o0 10 [.named "T", .named "T"] (.named "H")).1 = .ok (sH true) ∧
+    (genAfter ΔTH o0 10 [.named "T", .named "T"] (.named "H")).2.trace.contains "cache.hit" = true ∧
+    ¬ Dangling (genAfter ΔTH o0 10 [.named "T", .named "T"] (.named "H")).2 ∧
+    ¬ WrongComponent o0 (genAfter ΔTH o0 10 [.named "T", .named "T"] (.named "H")).2 ∧
+    acceptB [] (sH true) (encode ΔTH (.named "H") (.struct [.nil])) = true := by
+  refine ⟨by decide, by rfl, by decide, by decide, by decide, by decide⟩
 
 end KinModel.Gen3
